@@ -12,6 +12,7 @@ import (
 	"io"
 	"runtime/debug"
 	"testing"
+	"testing/synctest"
 	"time"
 	"unsafe"
 
@@ -138,6 +139,20 @@ func (i *simIdle) stalled(progress int, gap time.Duration) bool {
 		return false
 	}
 	return now.Sub(i.since) >= gap+20*time.Microsecond
+}
+
+// simConfirm guards a quiescence oracle against the runtime's spin-detection
+// sleeps (a goroutine that passed 50 000 scheduling points at one instant is
+// put to sleep for 1 µs wherever it is, and then looks "blocked inside the
+// call"): a suspicious state is only reported if it is still there, for the
+// same call, at a second quiescent point well after such a sleep has ended.
+func simConfirm(cond func() bool) bool {
+	if !cond() {
+		return false
+	}
+	time.Sleep(20 * time.Microsecond)
+	synctest.Wait()
+	return cond()
 }
 
 func simErrStr(err error) string {
